@@ -39,37 +39,15 @@ PLAIN = T.M_VALUE_ATTRS | T.P_VALUE_ATTRS
 ORDER = ("no", "maybe", "yes")
 
 
-def tv(s, e=""):
-    return (frozenset(s), frozenset(e))
-
-
+# kind algebra: a value is (kinds of the object itself, kinds of the elements it may contain)
+tv = lambda s, e="": (frozenset(s), frozenset(e))  # noqa: E731
 VAL, EMPTY = tv("V"), tv("")
-
-
-def join(*ts):
-    return (frozenset().union(*[t[0] for t in ts]), frozenset().union(*[t[1] for t in ts]))
-
-
-def flat(t):
-    """All kinds reachable from a value (the model itself and its objective count as parts)."""
-    return frozenset("P" if a in "MO" else a for a in (t[0] | t[1]))
-
-
-def elem(t):
-    k = flat(t)
-    return (k or frozenset("V"), k - {"V"})
-
-
-def wrap(ts):
-    return (frozenset("V"), flat(join(*ts)) - {"V"}) if ts else VAL
-
-
-def norm(path):
-    return path.replace(".solver.objective", ".objective")  # the Model.objective getter returns self.solver.objective
-
-
-def _last(f):
-    return f.attr if isinstance(f, ast.Attribute) else f.id if isinstance(f, ast.Name) else None
+join = lambda *ts: (frozenset().union(*[t[0] for t in ts]), frozenset().union(*[t[1] for t in ts]))  # noqa: E731
+flat = lambda t: frozenset("P" if a in "MO" else a for a in (t[0] | t[1]))  # noqa: E731  all kinds reachable (model, objective count as parts)
+elem = lambda t: (flat(t) or frozenset("V"), flat(t) - {"V"})  # noqa: E731  an element of t
+wrap = lambda ts: (frozenset("V"), flat(join(*ts)) - {"V"}) if ts else VAL  # noqa: E731  a new local object holding ts
+norm = lambda path: path.replace(".solver.objective", ".objective")  # noqa: E731  Model.objective returns self.solver.objective
+_last = lambda f: f.attr if isinstance(f, ast.Attribute) else f.id if isinstance(f, ast.Name) else None  # noqa: E731
 
 
 def _arg_for(call, fdef, pname):
@@ -578,10 +556,15 @@ class Fn:
                           f"({'inside a context, but ' + why if ctx else 'outside every context'}); {tail}")
 
     def run(self):
-        sites = self.sites()
+        sites, recs = self.sites(), []
         self.classes = [(s["node"], s["cls"]) for s in sites]
-        return [dict(zip(("result", "detail"), self.judge(s)), name=f"C13/{self.rel}:{self.qual}/site@L{s['node'].lineno}:{s['callee']}",
-                     function=f"{self.rel}:{self.qual}", line=s["node"].lineno, callee=s["callee"], **{"class": s["cls"].split(":")[0]}) for s in sites]
+        for s in sites:
+            kind = s["cls"].split(":")[0]  # reported class: a modifier reference is a ctx obligation, a copy is neutral like an analysis
+            res, detail = self.judge(s)
+            recs.append({"name": f"C13/{self.rel}:{self.qual}/site@L{s['node'].lineno}:{s['callee']}", "function": f"{self.rel}:{self.qual}",
+                         "line": s["node"].lineno, "callee": s["callee"], "class": {"helper": "ctx", "copy": "analysis"}.get(kind, kind),
+                         "result": res, "detail": detail if kind not in ("helper", "copy") else f"[{kind}] {detail}", "_kind": kind})
+        return recs
 
 
 def init_env(rel, cls):
@@ -611,9 +594,13 @@ def check_all(verbose=False):
             got = [{"name": f"C13/{m}:{q}/missing", "function": f"{m}:{q}", "line": 0, "callee": "", "class": "unknown", "result": "undecided",
                     "detail": f"cannot locate the function in the source tree: {e}"}]
         for r in got:
-            if r["class"] == "helper":
+            if r.pop("_kind", None) == "helper":
                 users.setdefault(r["callee"], set()).add(r["function"].split(":")[1])
         recs.extend(got)
+    seen = {}
+    for r in recs:  # names are unique: a second site with the same line and callee gets an ordinal
+        seen[r["name"]] = seen.get(r["name"], 0) + 1
+        r["name"] += f"#{seen[r['name']]}" if seen[r["name"]] > 1 else ""
     for r in recs:  # a modifier whose body is not discharged invalidates everyone who relies on its contract
         fn = r["function"].split(":")[1]
         if r["result"] != "discharged" and fn in users:
